@@ -615,6 +615,9 @@ def UnclesOkFromEx (S : DiffParams) (cfg : Config) (sealBad : Header → Bool) (
      | some p => HeaderValid S cfg 0 sealBad u p true true ∧ UnclesOkFromEx S cfg sealBad chain block low (earlier ++ [u]) rest
      | none => low = true ∧ ((u.parentHash, u.number) ∈ danglingParentExemptions ∨ (u.hash, u.number) ∈ danglingHashExemptions))
 
+/-- **Spec**: the uncle limit of a block: 2, and 1 from HF5 — decided by the block's OWN number. -/
+def uncleLimit (cfg : Config) (blockNumber : Nat) : Nat := if cfg.isHF 5 blockNumber then 1 else 2
+
 /-- **Spec with exemptions**: at most 2 uncles (1 from HF5), each acceptable or grandfathered. -/
 def UnclesValidEx (S : DiffParams) (cfg : Config) (sealBad : Header → Bool) (chain : Chain) (block : Block) : Prop :=
   block.uncles.length ≤ (if cfg.isHF 5 block.header.number then 1 else 2) ∧
